@@ -127,6 +127,18 @@ CLAIMED['C07'] = (
     'the induction needs every reachable state to be a state of the generator; the history obligations probe that for 2 (3) '
     'steps; 3 Schema classes + 1 DataClass',
     'symbolic execution of the real code (CrossHair primitives + z3), inductive step over symbolic pre-states, path-tree exhaustion, concrete replay')
+CLAIMED['C08'] = (
+    'Bounded symbolic differential model checking of FunctionParser (signature analysis, parse_params, get_params, sync / '
+    'coroutine / generator / async-generator wrappers, apply_class) against Python itself: an undecorated twin with the same '
+    'signature is called with the same solver-chosen call shape (number of positionals, a presence bit per keyword spelling '
+    'incl. alias and alias_from, extra keyword for **kw; every value an unbounded solver int, a convertible or an invalid '
+    'string); whenever Python binds the call the decorated body must see exactly that binding, converted, must not run if any '
+    'value is invalid, and the result must be converted; generators are driven with solver-chosen next/send sequences and '
+    'their event streams compared with the twin\'s. 6 signatures (positional-only, keyword-only, *args: T, **kw: T, excluded '
+    'parameter, Param alias / alias_from / default_factory), methods through @parse on a class, sync / async x lazy / eager '
+    'wrappers; every tree exhausted.',
+    'int parameters only; <= 3 generator steps; coroutines stepped manually (no event loop)',
+    'symbolic execution of the real code (CrossHair primitives + z3), differential against Python binding, path-tree exhaustion, concrete replay')
 NOT_APPLICABLE = {}
 
 def main():
